@@ -3,7 +3,7 @@
 # usage: fuzz_sse.sh <seconds>      exit 1 + "VIOLATION property=C15 replay=<artifact>" on a crash, else 0
 set -u
 SECS="${1:-60}"
-ROOT=/verif
+ROOT="${VERIF_ROOT:-/verif}"
 FUZZ=$ROOT/fuzz
 TDIR=$ROOT/target/fuzz
 ART=$FUZZ/artifacts/sse_chunking
